@@ -55,6 +55,15 @@ theorem reduceB_eq_mod_wide (x q mu pow32 : W) (c : ModC q mu pow32) (hp : pow32
     (reduceBToCanonical x q mu pow32).toNat = x.toNat % q.toNat := by
   rw [reduceB_toNat]; exact Q120.reduceB_eq_wide _ _ _ _ c.q_gt c.q_lt c.mu_eq c.pow_eq hp x.isLt
 
+/-- `r | (s << 32)` on two 32-bit values, without SAT (C10's `toNat_or_shl32` is a `bv_decide` lemma) -/
+theorem toNat_or_shl32' (r s : W) (hr : r.toNat < 2 ^ 32) (hs : s.toNat < 2 ^ 32) :
+    (or_si256 r (slli_epi64 s 32)).toNat = r.toNat + s.toNat * 2 ^ 32 := by
+  unfold or_si256 slli_epi64
+  rw [BitVec.toNat_or, if_pos (by decide), BitVec.toNat_shiftLeft, Nat.shiftLeft_eq]
+  have h1 : s.toNat * 2 ^ 32 < 2 ^ 64 := by omega
+  rw [Nat.mod_eq_of_lt h1, Nat.or_comm, ← Nat.shiftLeft_eq, ← Nat.shiftLeft_add_eq_or_of_lt hr, Nat.shiftLeft_eq]
+  omega
+
 /-- **`c_from_b_avx2` lane = `c_from_b_ref` for EVERY 64-bit word** (Primes30-shaped constants with `2^32 mod q < 2^28`) -/
 theorem cFromB_eq_ref_wide (x q mu pow32 : W) (c : ModC q mu pow32) (hp : pow32.toNat < 2 ^ 28) :
     [(cFromB x q mu pow32).toNat % 2 ^ 32, (cFromB x q mu pow32).toNat / 2 ^ 32] = cFromBK q.toNat x.toNat := by
@@ -74,7 +83,7 @@ theorem cFromB_eq_ref_wide (x q mu pow32 : W) (c : ModC q mu pow32) (hp : pow32.
   have hsl : (x.toNat % q.toNat * pow32.toNat) % q.toNat < q.toNat := Nat.mod_lt _ hq0
   unfold cFromB
   simp only []
-  rw [toNat_or_shl32 _ _ (by rw [hr]; omega) (by rw [hs]; omega), hr, hs]
+  rw [toNat_or_shl32' _ _ (by rw [hr]; omega) (by rw [hs]; omega), hr, hs]
   unfold cFromBK cPair wu32 wu64
   have e1 : (x.toNat % q.toNat + x.toNat % q.toNat * pow32.toNat % q.toNat * 2 ^ 32) % 2 ^ 32 = x.toNat % q.toNat := by
     rw [Nat.add_mul_mod_self_right]; exact Nat.mod_eq_of_lt (by omega)
@@ -97,6 +106,21 @@ theorem packLeft_eq_ref_wide (x q mu pow32 : W) (c : ModC q mu pow32) (hp : pow3
   have : x.toNat % q.toNat < q.toNat := Nat.mod_lt _ (by have := c.q_gt; omega)
   unfold packLeftK wu32
   rw [Nat.mod_eq_of_lt (by omega), Nat.div_eq_of_lt (by omega)]
+
+/-- **`pairwise_pack_left_1blk_x2_avx2` lane = the reference's `(a%q + b%q) mod q` for EVERY pair of 64-bit words** -/
+theorem pairwisePackLeft_eq_ref_wide (a b q mu pow32 : W) (c : ModC q mu pow32) (hp : pow32.toNat < 2 ^ 28) :
+    ((pairwisePackLeft a b q mu pow32).toNat, 0) = pairwisePackLeftK q.toNat a.toNat b.toNat := by
+  have hq := c.q_lt
+  have hq0 : 0 < q.toNat := by have := c.q_gt; omega
+  have h1 : a.toNat % q.toNat < q.toNat := Nat.mod_lt _ hq0
+  have h2 : b.toNat % q.toNat < q.toNat := Nat.mod_lt _ hq0
+  unfold pairwisePackLeft pairwisePackLeftK
+  rw [condSub_toNat, toNat_add, reduceB_eq_mod_wide a q mu pow32 c hp, reduceB_eq_mod_wide b q mu pow32 c hp,
+    wu64_of_lt _ (by omega), Q120.condSub_eq _ _ (by omega) (by omega)]
+  simp only [ge_iff_le]
+  split
+  · rw [subU64_of_le _ _ (by assumption) (by omega), wu32_of_lt _ (by omega)]
+  · rw [wu32_of_lt _ (by omega)]
 
 /-- the four Primes30 constant vectors: `ModC` and the small `pow32` -/
 theorem primes30_modC_wide (k : Nat) (hk : k < 4) :
@@ -167,6 +191,15 @@ theorem avx_pack_left_lane_eq_ref (k : Nat) (hk : k < 4) (x : W) :
       = packLeftK (primes30.qs.getD k 1) x.toNat := by
   obtain ⟨c, hp, hq⟩ := primes30_modC_wide k hk
   have := packLeft_eq_ref_wide x _ _ _ c hp
+  rw [hq] at this
+  exact this
+
+/-- **`pairwise_pack_left_1blk_x2_avx2` (cnv_pairwise_apply_dft) on EVERY pair of stored words = the reference's canonical pack** -/
+theorem avx_pairwise_pack_left_lane_eq_ref (k : Nat) (hk : k < 4) (a b : W) :
+    ((pairwisePackLeft a b (BitVec.ofNat 64 (Avx.Q120.Q.getD k 0)) (BitVec.ofNat 64 (Avx.Q120.MU.getD k 0)) (BitVec.ofNat 64 (Avx.Q120.POW32.getD k 0))).toNat, 0)
+      = pairwisePackLeftK (primes30.qs.getD k 1) a.toNat b.toNat := by
+  obtain ⟨c, hp, hq⟩ := primes30_modC_wide k hk
+  have := pairwisePackLeft_eq_ref_wide a b _ _ _ c hp
   rw [hq] at this
   exact this
 
